@@ -140,6 +140,21 @@ static void phase(long ridx, TriggerVariable& tv, bool starts_active, uint64_t& 
     });
     R.run();
     if (vrf::global_held_count() != 0) vrf::violation("oracle:lock_leaked_at_quiescence", "{}");
+    // activating a variable that is already active is refused and changes nothing (in particular it does not take a trigger
+    // back, which would strand a waiter arriving later)
+    if (tv.isActive()) {
+        bool trig = tv.isTriggered();
+        vrf::run_checked(ridx, [&] {
+            if (tv.activate()) vrf::violation("oracle:activate_on_active_variable_returned_true", "{}");
+        });
+        if (!tv.isActive() || tv.isTriggered() != trig) vrf::violation("oracle:refused_activate_changed_the_state", "{}");
+        if (trig) {
+            vrf::run_checked(ridx, [&] {
+                tv.wait();  // the event has happened: returns at once
+                if (!tv.wait_for(std::chrono::milliseconds(0))) vrf::violation("oracle:timed_wait_false_on_a_triggered_variable", "{}");
+            });
+        }
+    }
     cvwaits_out = cvw.load();
     timed_false_out = timed_false.load();
     vrf::note(vrf::mixhash(vrf::mixhash(std::hash<std::string>()(pj), R.sched_sig), cvw.load() * 8 + timed_false.load()), cvw.load() > 0);
